@@ -131,3 +131,6 @@ def replay(cs, env):
     for c, cr in env.execute([cs]):
         judge(res, c, cr)
     return res
+
+
+RULE = RULE + ' Directed part: function inlining matrix; one lazily represented set (power set of 7, product of 11x11 elements) reached through one variable and traversed again inside its own traversal (builder / quantifier / imperative / cardinality bodies).'
